@@ -43,7 +43,7 @@ var tiers = map[string]map[string]tierCfg{
 	"C16": {"quick": {24000, 30, 20, 0, 600}, "thorough": {600000, 1200, 30, 0, 1500}},
 	"C14": {"quick": {4000, 25, 20, 6, 600}, "thorough": {800000, 900, 30, 240, 1500}},
 	"C09": {"quick": {200000, 25, 20, 0, 1000}, "thorough": {3000000, 900, 30, 0, 3000}},
-	"C01": {"quick": {10000, 25, 20, 0, 1000}, "thorough": {2000000, 900, 30, 0, 3000}},
+	"C01": {"quick": {80000, 25, 20, 0, 1000}, "thorough": {2000000, 900, 30, 0, 3000}},
 }
 
 var raceProps = map[string]bool{"C13": true, "C14": true}
